@@ -515,6 +515,23 @@ Fixpoint has_sub (needle hay : bytes) : bool :=
   | _ :: t => bytes_eqb (firstn (List.length needle) hay) needle || has_sub needle t
   end.
 
+(** look-alikes: what unicode.IsSpace / strings.TrimSpace accept beyond TAB LF CR SPACE, and the BOM *)
+Definition space_like (c : cp) : bool :=
+  existsb (N.eqb c) [11; 12; 28; 29; 30; 31; 133; 160; 5760; 6158; 8192; 8193; 8194; 8195; 8196; 8197; 8198; 8199; 8200;
+                     8201; 8202; 8203; 8232; 8233; 8239; 8287; 12288; 65279]%N.
+
+(** a block string literal one of whose lines (between the delimiters) is not empty and consists
+    only of look-alikes and white space, with at least one look-alike: the line BlockStringValue
+    must NOT treat as blank *)
+Definition block_has_space_like_line (lit : bytes) : bool :=
+  match utf8_decode lit with
+  | Some cps =>
+      let inner := firstn (List.length cps - 6) (skipn 3 cps) in
+      existsb (fun line => existsb space_like line && forallb (fun c => space_like c || white_space c) line)
+              (split_lines inner)
+  | None => false
+  end.
+
 Definition classes (src : bytes) (m : lex_result) : list string :=
   match m with
   | OutOfFuel => []
@@ -538,6 +555,14 @@ Definition classes (src : bytes) (m : lex_result) : list string :=
       (if has_sub [13%N; 10%N] src then ["crlf"] else []) ++
       (if existsb (fun t => (1 <? t_line t)%Z) ts then ["multi-line"] else []) ++
       (if existsb (fun b => (127 <? b)%N) src then ["non-ascii"] else []) ++
+      (match utf8_decode src with
+       | Some cps => if existsb space_like cps then ["unicode-space"] else []
+       | None => [] end) ++
+      (if existsb (fun t => bytes_eqb (firstn 3 (t_lit t)) [34%N; 34%N; 34%N] &&
+                            match utf8_decode (t_lit t) with Some l => existsb space_like l | None => false end) strs
+       then ["block-unicode-space"] else []) ++
+      (if existsb (fun t => bytes_eqb (firstn 3 (t_lit t)) [34%N; 34%N; 34%N] && block_has_space_like_line (t_lit t)) strs
+       then ["block-line-of-unicode-space"] else []) ++
       (if valid then [] else ["invalid-utf8"]) ++
       (if is_nil es then ["no-error"] else ["error"]) ++
       (if (1 <? List.length es)%nat then ["multi-error"] else []) ++
